@@ -17,6 +17,8 @@ import (
 	"github.com/codelaboratoryltd/bng/pkg/dhcpv6"
 	"github.com/codelaboratoryltd/bng/pkg/pool"
 	"github.com/codelaboratoryltd/bng/pkg/pppoe"
+
+	"bngverif/internal/vstat"
 )
 
 var bg = context.Background()
@@ -198,6 +200,7 @@ type distPool struct {
 	lease  bool
 	echo   bool
 	wait   func() // synctest.Wait supplied by the runner (lease mode runs in a bubble)
+	tr     *Translator // harness subscriber name <-> the id the allocator and the store see
 }
 
 func (d *distPool) start() error {
@@ -215,17 +218,17 @@ func (d *distPool) start() error {
 }
 
 func (d *distPool) Alloc(sub string) (string, error) {
-	p, err := d.a.Allocate(bg, sub)
+	p, err := d.a.Allocate(bg, d.tr.ID(sub))
 	d.st.Flush(d.echo)
 	return cidrStr(p), err
 }
 func (d *distPool) Release(sub string) error {
-	err := d.a.Release(bg, sub)
+	err := d.a.Release(bg, d.tr.ID(sub))
 	d.st.Flush(d.echo)
 	return err
 }
 func (d *distPool) Lookup(sub string) (string, bool) {
-	p, ok := d.a.Get(sub)
+	p, ok := d.a.Get(d.tr.ID(sub))
 	if !ok {
 		return "", true
 	}
@@ -237,7 +240,7 @@ func (d *distPool) Reverse(val string) (string, bool) {
 		return "", false
 	}
 	s, _ := d.a.GetByPrefix(n)
-	return s, true
+	return d.tr.Name(s), true
 }
 func (d *distPool) Close() {
 	if d.cancel != nil {
@@ -248,7 +251,7 @@ func (d *distPool) Close() {
 	}
 }
 func (d *distPool) Renew(sub string) error {
-	err := d.a.Renew(bg, sub)
+	err := d.a.Renew(bg, d.tr.ID(sub))
 	d.st.Flush(d.echo)
 	return err
 }
@@ -282,9 +285,11 @@ func (d *distPool) Stats() (uint64, uint64, float64, bool) {
 	s := d.a.Stats()
 	return uint64(s.Allocated), uint64(s.Total), s.Utilization, true
 }
-func (d *distPool) key(sub string) string { return "/allocation/" + d.cfg.PoolID + "/" + sub }
+func (d *distPool) key(sub string) string {
+	return "/allocation/" + d.cfg.PoolID + "/" + d.tr.ID(sub)
+}
 func (d *distPool) RemoteSet(sub, val string) {
-	rec := allocator.DistributedAllocation{PoolID: d.cfg.PoolID, SubscriberID: sub, Prefix: val,
+	rec := allocator.DistributedAllocation{PoolID: d.cfg.PoolID, SubscriberID: d.tr.ID(sub), Prefix: val,
 		Epoch: d.a.GetCurrentEpoch(), AllocatedAt: time.Unix(1700000000, 0).UTC()}
 	raw, _ := json.Marshal(rec)
 	d.st.RemoteWrite(d.key(sub), raw, false)
@@ -317,8 +322,12 @@ func DistFactory(cidr string, unit int, lease bool, grace int, echo bool, class 
 		info.UtilOf = percent
 		info.Desc = fmt.Sprintf("DistributedAllocator(session,%s,/%d,echo=%v)", cidr, unit, echo)
 	}
+	tr := translatorFor(class, cfg.PoolID, false, "dist", cidr, unit, lease, grace, echo)
+	info.Desc += ",ids=" + tr.Scheme()
 	return Factory{Info: info, New: func(failAt int) Pool {
-		d := &distPool{cfg: cfg, st: NewMemStore(0), net: n, unit: info.Unit, lease: lease, echo: echo}
+		d := &distPool{cfg: cfg, st: NewMemStore(0), net: n, unit: info.Unit, lease: lease, echo: echo, tr: tr}
+		d.st.tr = tr
+		vstat.Class("pool-instances:ids:"+tr.Scheme(), 1)
 		if lease {
 			d.wait = wait
 		}
@@ -333,19 +342,20 @@ func DistFactory(cidr string, unit int, lease bool, grace int, echo bool, class 
 // ---------------------------------------------------------------- allocator.LocalAllocator / PoolAllocator
 
 type localPool struct {
-	a *allocator.LocalAllocator
+	a  *allocator.LocalAllocator
+	tr *Translator
 }
 
 const localPoolID = "lp"
 
 func (l *localPool) Alloc(sub string) (string, error) {
-	p, err := l.a.AllocateWithMAC(bg, sub, localPoolID, MacOf(sub).String())
+	p, err := l.a.AllocateWithMAC(bg, l.tr.ID(sub), localPoolID, MacOf(sub).String())
 	return cidrStr(p), err
 }
-func (l *localPool) Release(sub string) error { return l.a.Release(bg, sub, localPoolID) }
+func (l *localPool) Release(sub string) error { return l.a.Release(bg, l.tr.ID(sub), localPoolID) }
 func (l *localPool) Lookup(sub string) (string, bool) {
 	p, _ := l.a.GetPool(localPoolID)
-	return cidrStr(p.Lookup(sub)), true
+	return cidrStr(p.Lookup(l.tr.ID(sub))), true
 }
 
 // Reverse goes through the allocation store's IP index (the second view of the same allocations).
@@ -358,7 +368,7 @@ func (l *localPool) Reverse(val string) (string, bool) {
 	if err != nil || info == nil {
 		return "", true
 	}
-	return info.SubscriberID, true
+	return l.tr.Name(info.SubscriberID), true
 }
 func (l *localPool) Close() { _ = l.a.Close() }
 func (l *localPool) Stats() (uint64, uint64, float64, bool) {
@@ -385,15 +395,17 @@ type StoreUtiler interface {
 func LocalFactory(cidr string, unit int, class string) Factory {
 	n := mustCIDR(cidr)
 	u, huge := unitsOf(n, unit)
+	tr := translatorFor(class, localPoolID, true, "local", cidr, unit)
 	return Factory{
-		Info: Info{Impl: "localalloc", Class: class, Desc: fmt.Sprintf("LocalAllocator(%s,/%d)", cidr, unit), Net: n, Unit: unit,
+		Info: Info{Impl: "localalloc", Class: class, Desc: fmt.Sprintf("LocalAllocator(%s,/%d,ids=%s)", cidr, unit, tr.Scheme()), Net: n, Unit: unit,
 			Usable: u, Huge: huge, UtilOf: percent},
 		New: func(int) Pool {
 			a, err := allocator.NewLocalAllocator(allocator.LocalAllocatorConfig{Pools: []allocator.PoolConfig{{ID: localPoolID, CIDR: cidr, PrefixLength: unit}}})
 			if err != nil {
 				panic(fmt.Sprintf("constructor: %v", err))
 			}
-			return &localPool{a: a}
+			vstat.Class("pool-instances:ids:"+tr.Scheme(), 1)
+			return &localPool{a: a, tr: tr}
 		},
 	}
 }
@@ -402,14 +414,17 @@ type poolAllocPool struct {
 	p     *allocator.PoolAllocator
 	st    *FailingAllocStore
 	inner *allocator.MemoryAllocationStore
+	tr    *Translator
 }
 
 func (p *poolAllocPool) Alloc(sub string) (string, error) {
-	n, err := p.p.Allocate(bg, sub, MacOf(sub).String())
+	n, err := p.p.Allocate(bg, p.tr.ID(sub), MacOf(sub).String())
 	return cidrStr(n), err
 }
-func (p *poolAllocPool) Release(sub string) error         { return p.p.Release(bg, sub) }
-func (p *poolAllocPool) Lookup(sub string) (string, bool) { return cidrStr(p.p.Lookup(sub)), true }
+func (p *poolAllocPool) Release(sub string) error { return p.p.Release(bg, p.tr.ID(sub)) }
+func (p *poolAllocPool) Lookup(sub string) (string, bool) {
+	return cidrStr(p.p.Lookup(p.tr.ID(sub))), true
+}
 func (p *poolAllocPool) Reverse(val string) (string, bool) {
 	return "", false // the store view legitimately lags after an injected failure
 }
@@ -440,24 +455,27 @@ func (p *poolAllocPool) StoreUtil() (int, int, bool) {
 func PoolAllocFactory(cidr string, unit int, class string, faulty bool) Factory {
 	n := mustCIDR(cidr)
 	u, huge := unitsOf(n, unit)
+	tr := translatorFor(class, "pa", true, "poolalloc", cidr, unit, faulty)
 	return Factory{
-		Info: Info{Impl: "poolalloc", Class: class, Desc: fmt.Sprintf("PoolAllocator(%s,/%d)", cidr, unit), Net: n, Unit: unit,
+		Info: Info{Impl: "poolalloc", Class: class, Desc: fmt.Sprintf("PoolAllocator(%s,/%d,ids=%s)", cidr, unit, tr.Scheme()), Net: n, Unit: unit,
 			Usable: u, Huge: huge, UtilOf: percent},
 		New: func(failAt int) Pool {
+			vstat.Class("pool-instances:ids:"+tr.Scheme(), 1)
 			inner := allocator.NewMemoryAllocationStore()
 			if !faulty {
 				pa, err := allocator.NewPoolAllocator("pa", cidr, unit, inner)
 				if err != nil {
 					panic(fmt.Sprintf("constructor: %v", err))
 				}
-				return &poolAllocPool{p: pa, inner: inner}
+				return &poolAllocPool{p: pa, inner: inner, tr: tr}
 			}
 			st := NewFailingAllocStore(inner, failAt)
+			st.tr = tr
 			pa, err := allocator.NewPoolAllocator("pa", cidr, unit, st)
 			if err != nil {
 				panic(fmt.Sprintf("constructor: %v", err))
 			}
-			return &poolAllocPool{p: pa, st: st, inner: inner}
+			return &poolAllocPool{p: pa, st: st, inner: inner, tr: tr}
 		},
 	}
 }
@@ -704,7 +722,7 @@ func EpochConfigOK(cidr string, grace uint64) bool {
 
 // AllocAlt: the DHCP path of the distributed allocator (AllocateWithMAC).
 func (d *distPool) AllocAlt(sub string) (string, error) {
-	p, err := d.a.AllocateWithMAC(bg, sub, MacOf(sub))
+	p, err := d.a.AllocateWithMAC(bg, d.tr.ID(sub), MacOf(sub))
 	d.st.Flush(d.echo)
 	return cidrStr(p), err
 }
@@ -717,7 +735,7 @@ func (d *distPool) Store() *MemStore { return d.st }
 
 // AllocAlt: LocalAllocator.Allocate (no MAC), the other method of the Allocator interface.
 func (l *localPool) AllocAlt(sub string) (string, error) {
-	p, err := l.a.Allocate(bg, sub, localPoolID)
+	p, err := l.a.Allocate(bg, l.tr.ID(sub), localPoolID)
 	return cidrStr(p), err
 }
 func (l *localPool) ReleaseAlt(sub string) error { return l.Release(sub) }
@@ -725,7 +743,7 @@ func (l *localPool) ReleaseAlt(sub string) error { return l.Release(sub) }
 // AllocAlt: AllocateWithOptions with DUID and IAID, exactly what the DHCPv6 server calls.
 func (p *poolAllocPool) AllocAlt(sub string) (string, error) {
 	_, n := SubNum(sub)
-	ip, err := p.p.AllocateWithOptions(bg, allocator.AllocateOptions{SubscriberID: sub, DUID: DUIDOf(sub), IAID: uint32(n + 1)})
+	ip, err := p.p.AllocateWithOptions(bg, allocator.AllocateOptions{SubscriberID: p.tr.ID(sub), DUID: DUIDOf(sub), IAID: uint32(n + 1)})
 	return cidrStr(ip), err
 }
 func (p *poolAllocPool) ReleaseAlt(sub string) error { return p.Release(sub) }
